@@ -12,6 +12,7 @@ BUDGET_S = {"quick": 200, "thorough": 3000}
 TIMEOUT_MS = {"quick": 20000, "thorough": 300000}
 ASSUMPTIONS = [
     "exact real arithmetic", "hidden game superadditive (textbook constraints)",
+    "pre-state as in C01: every unknown row's stored lower/upper are free variables (any operation history)",
     "reference lower bound = max over set partitions of S into known blocks; reference upper = min over known T⊋S of v(T)-Lref(T\\S) "
     "(both built by the harness from the property text, independent of the code's recursion)",
     "attainment: the lower-bound game L and, per unknown S, w_S(T)=max(L_T, U_S+L_{T\\S}) for T⊇S (else L_T) are shown to be superadditive "
@@ -61,13 +62,20 @@ def tasks(tier, seed):
 
 
 def setup(params, inp, lg):
+    n = params["n"]
     v = _v(params, inp)
-    return F.sa_constraints(v, params["n"], lg)
+    known = set(F.minimal(n)) | set(params["K"])
+    for S in range(2 ** n):
+        if S not in known:
+            inp.real(f"staleL{S}")
+            inp.real(f"staleU{S}")
+    return F.sa_constraints(v, n, lg)
 
 
 def scenario(pk, params, inp):
     v = _v(params, inp)
-    g, known, unknown = build_game(pk, dict(params, history="direct_nostale"), inp, v)
+    # "the same inputs as C01": the pre-state of every unknown row is arbitrary (free stale variables)
+    g, known, unknown = build_game(pk, dict(params, history="stale"), inp, v)
     g.compute_bounds()
     return read_game(pk, g, params["n"])
 
